@@ -10,7 +10,14 @@
                                  step 1 of the kernel for the segment (x1,y1) → (x2,y2) on the grid with that
                                  origin / cell lengths: the crossing points in the order of the segment,
                                  `ok n | x y | …` (implementation: the vertices of the map `grisubal none …`
-                                 returned that lie inside the segment); `gcrossd …` (model only): `dart t s ; …`
+                                 returned that lie inside the segment); `gcrosss …` (model only): `dart t s ; …`
+    gcrossd <cx> <cy> <ox> <oy> <nx> <ny> x1 y1 x2 y2
+                                 the `(dart, t)` pairs of step 1 in identifier order, `ok dart t ; …` (implementation:
+                                 the hook `grisubal::verif::intersection_data` on a fresh nx × ny grid)
+    bndinit                      the 2-D session map gets the `Boundary` storage of the clip step (storage 9)
+    wbnd <dart> <L|R|N|->        `force_write_attribute::<Boundary>(dart, Left|Right|None)` / remove; reply `ok`
+    clip left|right              `clip_left` / `clip_right` (`Model/Clip.lean`): `ok` /
+                                 `err InconsistentOrientation between-boundary-inconsistency` / `panic`
     ancinit                      the 2-D session map gets the three anchor storages (6, 7, 8)
     wanchor v|e|f <id> <A><k>    `force_write_attribute` of `VertexAnchor|EdgeAnchor|FaceAnchor`
                                  (`A` ∈ N C S B as far as the kind has the variant); reply `ok`
@@ -23,6 +30,7 @@
 import Honeycomb.Model.Session
 import Honeycomb.Model.Capture
 import Honeycomb.Model.Grisubal
+import Honeycomb.Model.Clip
 
 namespace HC
 namespace Cap
@@ -65,6 +73,17 @@ def parsePairs : List String → Option (List (Nat × Nat))
 
 end Cap
 
+/-- `impl AttributeUpdate for Boundary` (`grisubal/model.rs`): equal tags merge to themselves, different
+    ones to `Boundary::None`; `merge_incomplete = Ok(attr)`; `merge_from_none = Ok(Boundary::None)`;
+    `split` is `unreachable!()` (reported here as `FailedSplit`: the clip step never sews). -/
+def boundaryLaw : Law Val where
+  merge a b := .ok (if a = b then a else bdNone)
+  mergeInc a := .ok a
+  mergeNone := .ok bdNone
+  split _ := .error errFailedSplit
+  splitNone := .error errInsufficient
+  ticks := false
+
 open Cap in
 def topCapture (s : Sess) (toks : List String) : Option (Sess × String) :=
   match toks with
@@ -82,8 +101,18 @@ def topCapture (s : Sess) (toks : List String) : Option (Sess × String) :=
           if c ≤ 0 then some (s, "bad-op")
           else some (s, s!"ok {ratStr (gridOrigin mn c 0)} {gridCells mn mx c 0}")
       | _, _, _ => some (s, "bad-op")
+  | ["gcrossd", cx, cy, ox, oy, nx, _ny, x1, y1, x2, y2] =>
+      match parseRat cx, parseRat cy, parseRat ox, parseRat oy, nx.toNat?, parseRat x1, parseRat y1,
+          parseRat x2, parseRat y2 with
+      | some cx, some cy, some ox, some oy, some nx, some x1, some y1, some x2, some y2 =>
+          if cx ≤ 0 ∨ cy ≤ 0 then some (s, "bad-op") else
+          let g : GGrid := { ox := ox, oy := oy, cx := cx, cy := cy, nx := nx }
+          let cs := crossingsMeta g epsF64 (x1, y1) (x2, y2)
+          if cs.isEmpty then some (s, "ok")
+          else some (s, "ok " ++ " ; ".intercalate (cs.map fun c => s!"{c.dart} {ratStr c.t}"))
+      | _, _, _, _, _, _, _, _, _ => some (s, "bad-op")
   | [cmd, cx, cy, ox, oy, nx, x1, y1, x2, y2] =>
-      if cmd ≠ "gcross" ∧ cmd ≠ "gcrossd" then none else
+      if cmd ≠ "gcross" ∧ cmd ≠ "gcrosss" then none else
       match parseRat cx, parseRat cy, parseRat ox, parseRat oy, nx.toNat?, parseRat x1, parseRat y1,
           parseRat x2, parseRat y2 with
       | some cx, some cy, some ox, some oy, some nx, some x1, some y1, some x2, some y2 =>
@@ -99,6 +128,40 @@ def topCapture (s : Sess) (toks : List String) : Option (Sess × String) :=
           else
             some (s, "ok " ++ " ; ".intercalate (cs.map fun c => s!"{c.dart} {ratStr c.t} {ratStr c.s}"))
       | _, _, _, _, _, _, _, _, _ => some (s, "bad-op")
+  | ["bndinit"] =>
+      if s.dim ≠ 2 then some (s, "bad-op") else
+      let ks := s.cfg.kinds ++ List.replicate (10 - s.cfg.kinds.length) 9
+      let cfg : Cfg Val := { s.cfg with
+        kinds := ks.set sBd 0
+        law := fun st => if st = sBd then boundaryLaw else s.cfg.law st }
+      some ({ s with cfg := cfg, m := s.m.withStorages 10 }, "ok")
+  | ["wbnd", d, v] =>
+      if s.dim ≠ 2 ∨ s.cfg.kinds.getD sBd 9 = 9 then some (s, "bad-op") else
+      match d.toNat? with
+      | none => some (s, "bad-op")
+      | some d =>
+        let val : Option (Option Val) := match v with
+          | "L" => some (some bdLeft)
+          | "R" => some (some bdRight)
+          | "N" => some (some bdNone)
+          | "-" => some none
+          | _ => none
+        match val with
+        | none => some (s, "bad-op")
+        | some val =>
+          if d < s.m.n ∧ s.m.okA sBd d then some ({ s with m := s.m.setA sBd d val }, "ok")
+          else some (s, "panic")
+  | ["clip", side] =>
+      if s.dim ≠ 2 ∨ s.cfg.kinds.getD sBd 9 = 9 then some (s, "bad-op") else
+      if side ≠ "left" ∧ side ≠ "right" then some (s, "bad-op") else
+      let prog := if side = "left" then clipLeft s.m.n (anchorsRegistered s) else clipRight s.m.n (anchorsRegistered s)
+      let (o, m') := run prog s.m
+      let out := match o with
+        | .ok _ => "ok"
+        | .err _ => "err InconsistentOrientation between-boundary-inconsistency"
+        | .retry => "diverges"
+        | .panic => "panic"
+      some ({ s with m := m' }, out)
   | ["ancinit"] =>
       if s.dim ≠ 2 then some (s, "bad-op") else
       let mask := s.mask ||| 224
